@@ -82,6 +82,7 @@ def generate(api):
     except (api.Unsupported, OSError, ValueError, IndexError) as e:
         api.broken('table', 'converter.gen_ids', PROPS, e)
     generate_collect(api)
+    generate_id_sites(api)
 
 
 TREE_REL = 'crates/usvg/src/tree/mod.rs'
@@ -207,3 +208,172 @@ def generate_collect(api):
         api.ok('tables', 'collect', arms=len(arms))
     except (api.Unsupported, OSError, ValueError, IndexError) as e:
         api.broken('table', 'tree.collect_loops', PROPS, e)
+
+
+# ------------------------------------------------------------------------------------------------
+# Gen/IdPrograms.v: every control path of the converter that emits more than one node for ONE source element, as a
+# straight-line "id program" (which node variable gets the element id, which is cleared / swapped / cloned, which
+# nodes are pushed into the tree).  Sites: image::convert_inner (slice / no slice), converter::convert_path (one
+# program per arm of `match raw_paint_order.order`, `append_single_paint_path` inlined for Fill and Stroke),
+# use_node::convert (the clip-rect branch: clip group + `use` group).
+# ------------------------------------------------------------------------------------------------
+ID_TOKENS = [
+    ('new', r"let\s+(?:mut\s+)?(\w+)\s*=\s*(?:Group::empty\(\)|Path::new_simple\()"),
+    ('src', r"let\s+(?:mut\s+)?(\w+)\s*=\s*clip_element\(\s*node,"),
+    ('src', r"Some\(mut\s+(\w+)\)\s*=\s*converter::convert_group\(\s*node,"),
+    ('src', r"let\s+(?:mut\s+)?(\w+)\s*=\s*Path::new\(\s*id,"),
+    ('src', r"(\w+)\.id\s*=\s*id;"),
+    ('clear', r"(\w+)\.id\s*=\s*String::new\(\);"),
+    ('cloneid', r"(\w+)\.id\s*=\s*(\w+)\.id(?:\(\))?\.(?:clone|to_string|to_owned)\(\);"),
+    ('swap', r"std::mem::swap\(\s*&mut\s+(\w+)\.id,\s*&mut\s+(\w+)\.id\s*\);"),
+    ('clonenode', r"let\s+(?:mut\s+)?(\w+)\s*=\s*(\w+)\.clone\(\);"),
+    ('emitnew', r"push\(Node::\w+\(Box::new\(\w+\s*\{\s*id:\s*String::new\(\),"),
+    ('emitclone', r"push\(Node::\w+\(Box::new\((\w+)\.clone\(\)\)\)\)"),
+    ('emit', r"push\(Node::\w+\(Box::new\((\w+)\)\)\)"),
+    ('call', r"append_single_paint_path\(\s*(\w+),\s*&path,\s*parent\)"),
+]
+ID_RE = re.compile("|".join("(?P<t%d>%s)" % (i, rx) for i, (_, rx) in enumerate(ID_TOKENS)), re.S)
+
+
+def _id_ops(api, text, where):
+    """ordered id operations of a code slice; any `.id =` / `mem::swap(..id` that is not recognised is an error"""
+    text = _strip_comments(text)
+    ops = []
+    for m in ID_RE.finditer(text):
+        i = next(k for k in range(len(ID_TOKENS)) if m.group('t%d' % k) is not None)
+        kind = ID_TOKENS[i][0]
+        # groups of alternative i: they follow the named group in order
+        gi = ID_RE.groupindex['t%d' % i]
+        ngr = re.compile(ID_TOKENS[i][1]).groups
+        ops.append((kind,) + tuple(m.group(gi + 1 + k) for k in range(ngr)))
+    assigns = len(re.findall(r"\.id\s*=[^=]", text)) + len(re.findall(r"mem::swap\([^;]*\.id", text))
+    seen = sum(1 for o in ops if o[0] in ('clear', 'cloneid', 'swap') or (o[0] == 'src' and False))
+    seen += len(re.findall(r"\w+\.id\s*=\s*id;", text))
+    if assigns != seen:
+        raise api.Unsupported("%s: an assignment to `.id` the translator does not understand (%d found, %d read)" % (where, assigns, seen))
+    return ops
+
+
+def _coq_ops(ops):
+    out = []
+    for o in ops:
+        k = o[0]
+        q = lambda s: '"%s"' % s
+        out.append({'new': lambda: 'OpNew %s' % q(o[1]), 'src': lambda: 'OpAssignSrc %s' % q(o[1]), 'clear': lambda: 'OpClear %s' % q(o[1]),
+                    'cloneid': lambda: 'OpCloneId %s %s' % (q(o[1]), q(o[2])), 'swap': lambda: 'OpSwap %s %s' % (q(o[1]), q(o[2])),
+                    'clonenode': lambda: 'OpCloneNode %s %s' % (q(o[1]), q(o[2])), 'emitnew': lambda: 'OpEmitNew',
+                    'emitclone': lambda: 'OpEmitClone %s' % q(o[1]), 'emit': lambda: 'OpEmit %s' % q(o[1])}[k]())
+    return "[%s]" % "; ".join(out)
+
+
+def _block_after(text, start_re):
+    m = re.search(start_re, text, re.S)
+    if not m:
+        return None, None, None
+    body = _fn_body(text[m.start():], start_re)
+    end = text.index('{', m.end() - 1) + len(body) + 2
+    return m.start(), body, end
+
+
+def generate_id_sites(api):
+    try:
+        progs = []
+        # ---- image::convert_inner
+        src = api.rd('crates/usvg/src/parser/image.rs')
+        body = _fn_body(src, r"fn\s+convert_inner\b[^{]*\{")
+        if body is None:
+            raise api.Unsupported("image::convert_inner not found")
+        a, blk, e = _block_after(body, r"if\s+aspect\.slice\s*\{")
+        if blk is None:
+            raise api.Unsupported("image::convert_inner: `if aspect.slice` not found")
+        rest = body[e:]
+        me = re.match(r"\s*else\s*\{", rest)
+        if not me:
+            raise api.Unsupported("image::convert_inner: no else branch after `if aspect.slice`")
+        eb = _fn_body(rest, r"else\s*\{")
+        tail = rest[rest.index('{') + len(eb) + 2:]
+        pre = _id_ops(api, body[:a], 'image::convert_inner')
+        progs.append(('image::convert_inner/slice', pre + _id_ops(api, blk, 'image slice') + _id_ops(api, tail, 'image tail')))
+        progs.append(('image::convert_inner/no-slice', pre + _id_ops(api, eb, 'image no-slice') + _id_ops(api, tail, 'image tail')))
+        # ---- converter::convert_path + append_single_paint_path
+        src = api.rd(REL)
+        body = _fn_body(src, r"fn\s+convert_path\b[^{]*\{")
+        single = _fn_body(src, r"fn\s+append_single_paint_path\b[^{]*\{")
+        if body is None or single is None:
+            raise api.Unsupported("convert_path / append_single_paint_path not found")
+        if not re.search(r"let\s+id\s*=\s*if\s+state\.parent_markers\.is_empty\(\)\s*\{\s*node\.element_id\(\)\.to_string\(\)\s*\}\s*else\s*\{\s*String::new\(\)\s*\}", body):
+            raise api.Unsupported("convert_path: `let id = if state.parent_markers.is_empty() { element id } else { empty }` not found")
+        mg = re.search(r"let\s+mut\s+marker_group\s*=\s*Group\s*\{(.*?)\.\.Group::empty\(\)\s*\}", body, re.S)
+        if not mg or re.search(r"\bid\b", mg.group(1)):
+            raise api.Unsupported("convert_path: the marker group literal was not found or sets an id")
+        singles = {}
+        sm = _fn_body(single, r"match\s+paint_order_kind\s*\{")
+        for kind in ('Fill', 'Stroke'):
+            mk = re.search(r"PaintOrderKind::%s\s*=>\s*\{" % kind, sm)
+            if not mk:
+                raise api.Unsupported("append_single_paint_path: arm %s not found" % kind)
+            singles[kind] = _id_ops(api, _fn_body(sm[mk.start():], r"PaintOrderKind::%s\s*=>\s*\{" % kind), 'append_single_paint_path/' + kind)
+        a = body.index('let path = Path::new(')
+        mm = re.search(r"match\s+raw_paint_order\.order\s*\{", body)
+        if not mm:
+            raise api.Unsupported("convert_path: `match raw_paint_order.order` not found")
+        pre = _id_ops(api, body[a:mm.start()], 'convert_path') + [('new', 'markers_node')]
+        mbody = _strip_comments(_fn_body(body[mm.start():], r"match\s+raw_paint_order\.order\s*\{"))
+        pos, narms = 0, 0
+        arm_re = re.compile(r"(\[[^\]]*\]|_)\s*=>\s*", re.S)
+        while True:
+            am = arm_re.search(mbody, pos)
+            if not am:
+                break
+            k = am.end()
+            if mbody[k] == '{':
+                act = _fn_body(mbody[k - 1:], r"\{") if False else None
+                depth, j = 0, k
+                while True:
+                    depth += {'{': 1, '}': -1}.get(mbody[j], 0)
+                    if depth == 0:
+                        break
+                    j += 1
+                act, pos = mbody[k + 1:j], j + 1
+            else:
+                depth, j = 0, k
+                while j < len(mbody) and not (mbody[j] == ',' and depth == 0):
+                    depth += {'(': 1, ')': -1}.get(mbody[j], 0)
+                    j += 1
+                act, pos = mbody[k:j] + ';', j + 1
+            act = re.sub(r"push\((Node::\w+\(Box::new\(\w+(?:\.clone\(\))?\)\))\)\s*;?", r"push(\1);", act)
+            ops = _id_ops(api, act, 'convert_path arm ' + am.group(1))
+            pat = _norm(am.group(1))
+            names = [o[1] for o in ops if o[0] == 'call']
+            combos = [dict()] if not names else [dict(zip(names, c)) for c in (('Fill', 'Stroke'), ('Stroke', 'Fill'))]
+            for cb in combos:
+                full = list(pre)
+                for o in ops:
+                    if o[0] == 'call':
+                        full += [(x[0],) + tuple('path' if (y == 'path' and i > 0 and x[0] == 'clonenode' and i == 2) else y for i, y in enumerate(x[1:], 1))
+                                 for x in singles[cb[o[1]]]]
+                    else:
+                        full.append(o)
+                label = 'convert_path/%s%s' % (pat, ''.join('/%s=%s' % kv for kv in sorted(cb.items())))
+                progs.append((label, full))
+            narms += 1
+        if narms < 2:
+            raise api.Unsupported("convert_path: paint-order arms not found")
+        # ---- use_node::convert, clip-rect branch
+        src = api.rd('crates/usvg/src/parser/use_node.rs')
+        a, blk, e = _block_after(src, r"if\s+let\s+Some\(clip_rect\)\s*=\s*get_clip_rect\(node,\s*child,\s*state\)\s*\{")
+        if blk is None:
+            raise api.Unsupported("use_node::convert: clip-rect branch not found")
+        ce = _fn_body(src, r"fn\s+clip_element\b[^{]*\{")
+        if ce is None or not re.search(r"Group\s*\{\s*id,", ce) or not re.search(r"let\s+id\s*=\s*if\s+state\.parent_markers\.is_empty\(\)\s*\{\s*node\.element_id\(\)", ce):
+            raise api.Unsupported("use_node::clip_element does not give its group the element id as expected")
+        progs.append(('use_node::convert/clip-rect', _id_ops(api, blk, 'use_node clip-rect branch')))
+        out = [api.HEADER, "From Coq Require Import String List.\nImport ListNotations.\nLocal Open Scope string_scope.\n",
+               "(* node variables; OpAssignSrc x: x gets the id of the source element; OpEmit x: x is moved into the tree; OpEmitClone x: a copy is *)",
+               "Inductive idop := OpNew (x : string) | OpAssignSrc (x : string) | OpClear (x : string) | OpCloneId (x y : string)",
+               "  | OpSwap (x y : string) | OpCloneNode (x y : string) | OpEmit (x : string) | OpEmitClone (x : string) | OpEmitNew.",
+               "Definition id_programs : list (string * list idop) :=\n  [%s].\n" % ";\n   ".join('("%s", %s)' % (n, _coq_ops(p)) for n, p in progs)]
+        api.write_gen('IdPrograms.v', "\n".join(out))
+        api.ok('tables', 'id_programs', programs=len(progs))
+    except (api.Unsupported, OSError, ValueError, IndexError, StopIteration) as e:
+        api.broken('table', 'converter.id_programs', ['C05'], e)
